@@ -433,12 +433,14 @@ impl RealLiteral {
             return Err("Non-real characters");
         }
         let r: String = r.into_iter().collect();
-        f64::from_str(r.as_str())
-            .map(|value| RealLiteral {
-                value,
-                data_type: tn,
-            })
-            .map_err(|e| "real")
+        let value = f64::from_str(r.as_str()).map_err(|e| "real")?;
+        if !value.is_finite() {
+            return Err("Real literal out of range");
+        }
+        Ok(RealLiteral {
+            value,
+            data_type: tn,
+        })
     }
 }
 
